@@ -104,6 +104,54 @@ fn direct(args: &Args, report: &mut Report) {
             }
             report.evaluations += 1;
         }
+        // concurrent readers on one handle, the way the store uses it (shared side of a reader-writer lock):
+        // each thread re-reads its own extents, of growing and shrinking sizes, and must see its own bytes
+        if !last && round % 2 == 0 {
+            let nthreads = 4usize;
+            for t in 0..nthreads {
+                let pattern: Vec<u8> = (0..40 * 4096).map(|i| (t as u8).wrapping_mul(31).wrapping_add((i / 4096) as u8)).collect();
+                let _ = io.write_sectors_sync(1100 + t as u64 * 60, &pattern);
+            }
+            let shared = Arc::new(parking_lot::RwLock::new(io));
+            let mut hs = Vec::new();
+            for t in 0..nthreads {
+                let shared = shared.clone();
+                let mut trng = Rng::derive(args.seed, round, 40 + t as u64);
+                hs.push(std::thread::spawn(move || {
+                    let mut bad = 0u64;
+                    let mut reads = 0u64;
+                    for i in 0..60u64 {
+                        let blocks = if i % 7 == 6 { 40 } else { trng.range(1, 24) };
+                        let off = trng.below(40 - blocks + 1);
+                        if let Ok(data) = shared.read().read_sectors_sync(1100 + t as u64 * 60 + off, blocks) {
+                            reads += 1;
+                            let ok = data.len() == blocks as usize * 4096 && data.chunks(4096).enumerate().all(|(b, c)| c.iter().all(|x| *x == (t as u8).wrapping_mul(31).wrapping_add((off as usize + b) as u8)));
+                            if !ok {
+                                bad += 1;
+                            }
+                        }
+                    }
+                    (reads, bad)
+                }));
+            }
+            let mut bad = 0;
+            for h in hs {
+                let (r, b) = h.join().unwrap_or((0, 1));
+                report.count("direct_concurrent_reads", r);
+                bad += b;
+            }
+            if bad > 0 {
+                report.violation("san:direct-concurrent-read", format!("{bad} concurrent O_DIRECT reads through one shared handle returned bytes of another reader's extent"), json!({"engine": "san", "mode": "direct"}));
+            }
+            io = match Arc::try_unwrap(shared) {
+                Ok(l) => l.into_inner(),
+                Err(_) => {
+                    report.inconclusive.push("direct: handle still shared".into());
+                    break;
+                }
+            };
+            report.evaluations += 1;
+        }
         let _ = io.flush();
         io.shutdown();
         // AlignedBuffer life cycle
